@@ -187,6 +187,8 @@ class Routine:
             _pred = lambda cb: (not cb.is_closure) and cb.key not in prog.exported and (cb.raw.get("output") == "bool") and \
                 len(cb.blocks) <= 20 and not cb.raw.get("unsafe_fn")
             nb = thread_constant_flags(prog, inline_calls(prog, body, _pred))
+            from .facts import forward_result_local
+            nb = forward_result_local(prog, nb)
             if nb is not body:
                 nb._pred_threaded = True
                 body = nb
@@ -262,6 +264,14 @@ class Routine:
                     info.append((s, "diverge", []))
                     continue
                 fds = self.first_ret_defs(s, bb)
+                if None in fds:
+                    # the return place keeps the value it had when this side was entered (`let mut out = Err(E); if .. { out = Ok(v) } out`)
+                    try:
+                        rd0 = [d0 for d0 in b.reaching_defs(0, s, 0) if d0[0] not in ("entry", "partial")]
+                    except Exception:
+                        rd0 = []
+                    if len(rd0) == 1:
+                        fds = [rd0[0] if d is None else d for d in fds]
                 kinds = [self.ret_kind(d) for d in fds]
                 if kinds and all(k[0] in ("err", "residual") for k in kinds):
                     info.append((s, "error", list(zip(fds, kinds))))
@@ -479,6 +489,22 @@ class Routine:
 
     def classify_try(self, E):
         """E? → class of the Break side"""
+        for _ in range(3):
+            # r.map_err(From::from)? is r? (the `?` converts anyway); opt.ok_or_else(|| E) is opt.ok_or(E) for a closure that only
+            # builds the error value
+            if isinstance(E, tuple) and E[0] == "call" and E[1] == "map_err" and len(E[3]) == 2:
+                f_ = strip(E[3][1])
+                if isinstance(f_, tuple) and f_[0] == "fn" and str(f_[1]).rsplit("::", 1)[-1] in ("from", "into"):
+                    E = strip(E[3][0])
+                    continue
+            if isinstance(E, tuple) and E[0] == "call" and E[1] == "ok_or_else" and len(E[3]) == 2:
+                c_ = strip(E[3][1])
+                if isinstance(c_, tuple) and c_[:2] == ("agg", "closure") and c_[2] in self.prog.bodies:
+                    cbd = self.prog.bodies[c_[2]]
+                    if not list(cbd.calls()) and not any(cbd.term(x_)["k"] == "switch" for x_ in cbd.live_blocks()):
+                        E = ("call", "ok_or", E[2], (E[3][0], strip(cbd.return_expr())), E[4])
+                        continue
+            break
         if isinstance(E, tuple) and E[0] == "call":
             if E[1] == "ok_or" and len(E[3]) == 2:
                 oe = opt_emptiness(E[3][0])
@@ -519,12 +545,28 @@ class Routine:
                     to_ty = last_generic(ga[0])
                     fr_ty = last_generic(ga[1])
             val = None
+            explicit_conv = False
+            for _ in range(3):
+                if isinstance(inner_try, tuple) and inner_try[0] == "call" and inner_try[1] == "map_err" and len(inner_try[3]) == 2:
+                    f_ = strip(inner_try[3][1])
+                    if isinstance(f_, tuple) and f_[0] == "fn" and str(f_[1]).rsplit("::", 1)[-1] in ("from", "into"):
+                        inner_try = strip(inner_try[3][0])        # r.map_err(From::from)?: the conversion `?` would apply, spelled out
+                        explicit_conv = True
+                        continue
+                if isinstance(inner_try, tuple) and inner_try[0] == "call" and inner_try[1] == "ok_or_else" and len(inner_try[3]) == 2:
+                    c_ = strip(inner_try[3][1])
+                    if isinstance(c_, tuple) and c_[:2] == ("agg", "closure") and c_[2] in prog.bodies and not list(prog.bodies[c_[2]].calls()):
+                        inner_try = ("call", "ok_or", inner_try[2], (inner_try[3][0], strip(prog.bodies[c_[2]].return_expr())), inner_try[4])
+                        continue
+                break
             if inner_try is not None and inner_try[0] == "call" and inner_try[1] == "ok_or" and len(inner_try[3]) == 2:
                 val = strip(inner_try[3][1])
             if mapping and val is not None:
                 val = subst(val, mapping)
             if val is None:
                 return ("converted", fr_ty, to_ty, fmt(inner_try) if inner_try is not None else "?")
+            if explicit_conv and isinstance(val, tuple) and val[0] == "agg" and to_ty and val[1] != to_ty:
+                return self.convert(val, val[1], to_ty)
             return self.convert(val, fr_ty, to_ty)
         e = strip(payload) if payload is not None else None
         # into()/from()  (resolved with this body's own call sites, i.e. before any substitution of caller arguments)
